@@ -160,6 +160,12 @@ func Main(m *testing.M, property string) {
 			scale = f
 		}
 	}
+	if v := os.Getenv("VK_SCALE_CFG"); v != "" {
+		// per build-configuration budget factor (verif.json "env")
+		if f, err := strconv.ParseFloat(v, 64); err == nil && f > 0 {
+			scale *= f
+		}
+	}
 	if v := os.Getenv("VK_HANG_S"); v != "" {
 		if n, err := strconv.Atoi(v); err == nil && n > 0 {
 			hangAfter = time.Duration(n) * time.Second
